@@ -2,6 +2,7 @@ package sim
 
 import (
 	"fmt"
+	"strings"
 	"testing/synctest"
 
 	jsonds "github.com/cube2222/octosql/datasources/json"
@@ -93,7 +94,14 @@ func RunGatedPool(r *Run, node execution.Node, jsonWorkers int, ctl *Ctl, produc
 	})
 	if p != nil && !out.Deadlock {
 		// after a detected deadlock the bubble cannot end cleanly: expected, not a harness problem
-		r.Infra("bubble panic: %v", p)
+		if out.Finished && strings.Contains(fmt.Sprint(p), "blocked goroutines remain") {
+			// the query returned but left a goroutine blocked for good (the joins' acknowledged
+			// "goroutine leak": an input still sending into a channel nobody reads after an early
+			// stop). The property is about the query terminating: counted, not a violation.
+			r.Probe("goroutines_left_blocked_after_run")
+		} else {
+			r.Infra("bubble panic: %v", p)
+		}
 	}
 	return out
 }
